@@ -167,7 +167,12 @@ def main(tier):
 
         if r.get("reused_input_ok") is False and not (c["op"] == "linear" and dtype == "bfloat16" and c.get("act") == "float" and c.get("wq") == "qint8" and K % 4 == 0 and K % 16 != 0):
             ck.violation("F.linear fed the same activation object again after an in-place update returns something else than for a fresh tensor holding the same values", {"case": cfg})
-        if r.get("reused_weight_ok") is False:
+        f14cfg = c["op"] == "linear" and dtype == "bfloat16" and c.get("act") == "float" and c.get("wq") == "qint8" and K % 4 == 0 and K % 16 != 0
+        if r.get("reused_weight_ok") is False and f14cfg:
+            # F14: on this configuration two calls on the SAME operands already differ (garbage read past unaligned rows), so the comparison
+            # of the reused weight object with a fresh one says nothing about the object's history
+            ck.violation(f"linear: bfloat16 activations x int8 weights routed to torch._weight_int8pack_mm with in_features={K} (not a multiple of 16): the kernel returns garbage (a reused and a fresh weight holding the same codes differ) when it does not crash", {"case": cfg})
+        elif r.get("reused_weight_ok") is False:
             ck.violation("F.linear with a weight object whose codes and scales were overwritten in place (copy_) differs from the product with a fresh weight holding the same codes (stale copy keyed by object identity)", {"case": cfg})
         if r.get("result_stable") is False:
             if c["op"] == "linear" and dtype == "bfloat16" and c.get("act") == "float" and c.get("wq") == "qint8" and K % 4 == 0 and K % 16 != 0:
